@@ -41,6 +41,8 @@ VARIANTS = {
                  ['-lpthread', '-lm']),
     'bigendian': ('gcc', ['-O1', '-g0', '-w', STD, '-DWASM_ENDIAN=1'], None, ['-lpthread', '-lm']),
     'vsched': ('gcc', ['-O1', '-g0', '-w', STD], None, ['-lpthread', '-lm']),
+    # the translator under ThreadSanitizer: data races between the producer and the worker threads (shared buffers, statics)
+    'tsan': ('clang', ['-O1', '-g', '-w', '-fsanitize=thread'], None, ['-lpthread', '-lm']),
 }
 
 ASAN_ENV = {'ASAN_OPTIONS': 'detect_leaks=0:exitcode=99:abort_on_error=0:allocator_may_return_null=1:'
@@ -48,7 +50,7 @@ ASAN_ENV = {'ASAN_OPTIONS': 'detect_leaks=0:exitcode=99:abort_on_error=0:allocat
             # dirty heap for plain builds, so that missing zero-initialisation is visible
             'MALLOC_PERTURB_': '165', 'MALLOC_MMAP_THRESHOLD_': '33554432',
             'UBSAN_OPTIONS': 'print_stacktrace=1:halt_on_error=1:exitcode=98',
-            'MSAN_OPTIONS': 'exitcode=97'}
+            'MSAN_OPTIONS': 'exitcode=97', 'TSAN_OPTIONS': 'exitcode=96:report_thread_leaks=0'}
 
 
 class InfraError(Exception):
